@@ -139,6 +139,9 @@ type CCase struct {
 	FSChain bool `json:"fschain"`
 	// CL: loader 2 is a CompiledLoader on a scratch directory
 	CL bool `json:"cl"`
+	// AChain: as Chain, and the first loader of the chain is a real ArrayLoader in which version 1 of every name is the
+	// EMPTY source (a template that exists and renders to nothing; "the first loader that has the name wins" holds for it too)
+	AChain bool `json:"achain"`
 }
 
 // sourceOf: the source of version v of a name; version 9 does not parse
@@ -162,12 +165,22 @@ type cacheWorld struct {
 	fs1 *fsLoader
 	// alias[a] = n: a was registered with the template loaded under n
 	alias map[string]string
+	// arr1 / arrMap: loader 1 as a real ArrayLoader over arrMap (AChain variant)
+	arr1   *twig.ArrayLoader
+	arrMap map[string]string
 }
 
-func newCacheWorld(fs, chain, fschain, cl bool) *cacheWorld {
+func newCacheWorld(fs, chain, fschain, cl, achain bool) *cacheWorld {
 	w := &cacheWorld{e: twig.New()}
 	c1 := newCounting()
 	w.l1 = &c1
+	if achain {
+		w.arrMap = map[string]string{}
+		w.arr1 = twig.NewArrayLoader(w.arrMap)
+		w.l2 = &tsLoader{newCounting()}
+		w.e.RegisterLoader(twig.NewChainLoader([]twig.Loader{w.arr1, w.l2}))
+		return w
+	}
 	if fschain {
 		dir, err := os.MkdirTemp("", "verif-c15-")
 		if err != nil {
@@ -240,6 +253,9 @@ func (w *cacheWorld) apply(op *COp) (served int, msg string) {
 	case "render":
 		out, err := w.e.Render(op.N, nil)
 		switch {
+		case err == nil && out == "" && w.arr1 != nil:
+			// the empty source: version 1 of the ArrayLoader
+			return 1, ""
 		case err == nil:
 			var name string
 			var v int
@@ -300,7 +316,13 @@ func (w *cacheWorld) apply(op *COp) (served int, msg string) {
 			return -2, err.Error()
 		}
 	case "put":
-		if op.I == 1 && w.fs1 != nil {
+		if op.I == 1 && w.arr1 != nil {
+			src := verSource(op.N, op.V)
+			if op.V == 1 {
+				src = ""
+			}
+			w.arr1.SetTemplate(op.N, src)
+		} else if op.I == 1 && w.fs1 != nil {
 			if err := os.WriteFile(w.fs1.dir+"/"+op.N, []byte(verSource(op.N, op.V)), 0o644); err != nil {
 				return -2, "harness: " + err.Error()
 			}
@@ -315,7 +337,10 @@ func (w *cacheWorld) apply(op *COp) (served int, msg string) {
 			w.l2.mtime[op.N] = op.Mt
 		}
 	case "delete":
-		if op.I == 1 && w.fs1 != nil {
+		if op.I == 1 && w.arr1 != nil {
+			// the array is the caller's map: removing the key removes the template
+			delete(w.arrMap, op.N)
+		} else if op.I == 1 && w.fs1 != nil {
 			os.Remove(w.fs1.dir + "/" + op.N)
 		} else if op.I == 1 {
 			w.l1.content[op.N] = 0
@@ -402,7 +427,7 @@ func describe(op *COp) string {
 
 func runCacheHist(c *CCase, rec *bufio.Writer, traceNo int) (res Result) {
 	res = Result{Prop: c.Prop, Key: c.Key, Tags: c.Tags, Pass: true, Runs: len(c.Ops)}
-	w := newCacheWorld(c.FS, c.Chain, c.FSChain, c.CL)
+	w := newCacheWorld(c.FS, c.Chain, c.FSChain, c.CL, c.AChain)
 	defer w.close()
 	if c.Auto {
 		w.e.SetAutoReload(true)
@@ -431,7 +456,7 @@ func runCacheHist(c *CCase, rec *bufio.Writer, traceNo int) (res Result) {
 		}
 		if len(op.Obs.Loads) == 2 {
 			want := op.Obs
-			if c.Chain || c.FSChain {
+			if c.Chain || c.FSChain || c.AChain {
 				want.Loads = got.Loads
 			}
 			if op.AnyServed {
